@@ -172,10 +172,18 @@ func guardedByX(info *types.Info, par map[ast.Node]ast.Node, stmt ast.Node, pred
 			if idx < 0 {
 				return false
 			}
-			if killObj != nil {
-				for _, s := range list[:idx] {
-					if AssignsTo(info, s, killObj) {
-						return false
+			// statements before stmt in the same list, nearest first: an assignment to the guarded object ends the
+			// search; an `if c { …; return / continue / break / panic }` without else establishes !c for what follows
+			// (the early-exit spelling of `if !c { stmt }`)
+			for k := idx - 1; k >= 0; k-- {
+				if killObj != nil && AssignsTo(info, list[k], killObj) {
+					return false
+				}
+				if ifs, ok := list[k].(*ast.IfStmt); ok && ifs.Else == nil && Terminates(info, ifs.Body) {
+					for _, f := range expandFacts(info, Decompose(ifs.Cond, false, nil)) {
+						if pred(f) {
+							return true
+						}
 					}
 				}
 			}
@@ -184,7 +192,7 @@ func guardedByX(info *types.Info, par map[ast.Node]ast.Node, stmt ast.Node, pred
 					val := ifs.Body == blk
 					isElse := ifs.Else == blk
 					if val || isElse {
-						for _, f := range Decompose(ifs.Cond, val, nil) {
+						for _, f := range expandFacts(info, Decompose(ifs.Cond, val, nil)) {
 							if pred(f) {
 								return true
 							}
@@ -195,7 +203,7 @@ func guardedByX(info *types.Info, par map[ast.Node]ast.Node, stmt ast.Node, pred
 			if cc, ok := pp.(*ast.CaseClause); ok {
 				// tagless switch: case conditions are facts
 				if sw, ok := par[par[cc]].(*ast.SwitchStmt); ok && sw.Tag == nil && len(cc.List) == 1 {
-					for _, f := range Decompose(cc.List[0], true, nil) {
+					for _, f := range expandFacts(info, Decompose(cc.List[0], true, nil)) {
 						if pred(f) {
 							return true
 						}
@@ -206,7 +214,7 @@ func guardedByX(info *types.Info, par map[ast.Node]ast.Node, stmt ast.Node, pred
 				if sw, ok := par[par[cc]].(*ast.SwitchStmt); ok && sw.Tag != nil && len(cc.List) > 0 {
 					all := true
 					for _, ce := range cc.List {
-						if !pred(Fact{Expr: ce, Val: true, Tag: sw.Tag}) {
+						if !pred(Fact{Expr: ce, Val: true, Tag: sw.Tag}) && !pred(Fact{Expr: &ast.BinaryExpr{X: sw.Tag, Op: token.EQL, Y: ce, OpPos: ce.Pos()}, Val: true}) {
 							all = false
 						}
 					}
@@ -215,10 +223,66 @@ func guardedByX(info *types.Info, par map[ast.Node]ast.Node, stmt ast.Node, pred
 					}
 				}
 			}
+			if cc, ok := pp.(*ast.CaseClause); ok {
+				// type switch: the clause is entered when the subject has the clause's type
+				if ts, ok := par[par[cc]].(*ast.TypeSwitchStmt); ok && len(cc.List) == 1 {
+					if subj := TypeSwitchSubject(ts); subj != nil {
+						var f Fact
+						if id, ok := unparen(cc.List[0]).(*ast.Ident); ok && id.Name == "nil" {
+							f = Fact{Expr: &ast.BinaryExpr{X: subj, Op: token.EQL, Y: cc.List[0], OpPos: cc.Pos()}, Val: true}
+						} else {
+							f = Fact{Expr: &ast.TypeAssertExpr{X: subj, Type: cc.List[0], Lparen: cc.Pos()}, Val: true}
+						}
+						if pred(f) {
+							return true
+						}
+					}
+				}
+				// the default clause of a switch: every other clause's test is false
+				if cc.List == nil {
+					body, _ := par[cc].(*ast.BlockStmt)
+					switch sw := par[body].(type) {
+					case *ast.SwitchStmt:
+						for _, other := range body.List {
+							oc := other.(*ast.CaseClause)
+							for _, ce := range oc.List {
+								var fs []Fact
+								if sw.Tag == nil {
+									fs = expandFacts(info, Decompose(ce, false, nil))
+								} else {
+									fs = []Fact{{Expr: &ast.BinaryExpr{X: sw.Tag, Op: token.EQL, Y: ce, OpPos: ce.Pos()}, Val: false}}
+								}
+								for _, f := range fs {
+									if pred(f) {
+										return true
+									}
+								}
+							}
+						}
+					case *ast.TypeSwitchStmt:
+						if subj := TypeSwitchSubject(sw); subj != nil {
+							for _, other := range body.List {
+								oc := other.(*ast.CaseClause)
+								for _, ce := range oc.List {
+									var f Fact
+									if id, ok := unparen(ce).(*ast.Ident); ok && id.Name == "nil" {
+										f = Fact{Expr: &ast.BinaryExpr{X: subj, Op: token.EQL, Y: ce, OpPos: ce.Pos()}, Val: false}
+									} else {
+										f = Fact{Expr: &ast.TypeAssertExpr{X: subj, Type: ce, Lparen: ce.Pos()}, Val: false}
+									}
+									if pred(f) {
+										return true
+									}
+								}
+							}
+						}
+					}
+				}
+			}
 		case *ast.IfStmt:
 			// stmt is the else-if; facts of the outer condition being false
 			if pp.Else == cur {
-				for _, f := range Decompose(pp.Cond, false, nil) {
+				for _, f := range expandFacts(info, Decompose(pp.Cond, false, nil)) {
 					if pred(f) {
 						return true
 					}
@@ -290,4 +354,34 @@ func ErrorReturn(info *types.Info, par map[ast.Node]ast.Node, sig *types.Signatu
 // ExprString renders an expression compactly (for construct descriptors).
 func ExprString(e ast.Expr) string {
 	return strings.Join(strings.Fields(types.ExprString(e)), " ")
+}
+
+// Terminates reports whether control never flows out of the end of the block: its last statement is a return, a
+// branch (break / continue / goto), a call that does not return, or an if/else all of whose branches terminate.
+func Terminates(info *types.Info, b *ast.BlockStmt) bool {
+	if b == nil || len(b.List) == 0 {
+		return false
+	}
+	return stmtTerminates(info, b.List[len(b.List)-1])
+}
+
+func stmtTerminates(info *types.Info, s ast.Stmt) bool {
+	switch x := s.(type) {
+	case *ast.ReturnStmt:
+		return true
+	case *ast.BranchStmt:
+		return x.Tok == token.BREAK || x.Tok == token.CONTINUE || x.Tok == token.GOTO
+	case *ast.ExprStmt:
+		if call, ok := unparen(x.X).(*ast.CallExpr); ok {
+			return NoReturn(info, call)
+		}
+	case *ast.BlockStmt:
+		return Terminates(info, x)
+	case *ast.IfStmt:
+		if x.Else == nil {
+			return false
+		}
+		return Terminates(info, x.Body) && stmtTerminates(info, x.Else)
+	}
+	return false
 }
